@@ -155,7 +155,7 @@ static void fresh(int lvl, int initsize)
 	nfreed = 0;
 	memset(node, 0, sizeof node);
 	if (lvl == 0)
-		al = array_list_new2(raw_free, initsize);
+		al = initsize == 32 && vh_below(2) ? array_list_new(raw_free) : array_list_new2(raw_free, initsize); /* (the old constructor: 32 slots) */
 	else
 	{
 		arr = initsize < 0 ? json_object_new_array() : json_object_new_array_ext(initsize);
@@ -200,11 +200,14 @@ static void give_back(int id)
 	}
 }
 
+/* a json_object array's own list is public too (json_object_get_array): one call in four goes through that door */
+#define LST json_object_get_array(arr)
+#define VIA_LIST (vh_below(4) == 0)
 static void do_add(void)
 {
 	int id = new_elem();
 	int ret;
-	ARMED(ret = level == 0 ? array_list_add(al, (void *)(intptr_t)id) : json_object_array_add(arr, node[id]));
+	ARMED(ret = level == 0 ? array_list_add(al, (void *)(intptr_t)id) : VIA_LIST ? array_list_add(LST, node[id]) : json_object_array_add(arr, node[id]));
 	observe("add", Z, Z, id, ret, 0, 0, 0);
 	if (ret)
 		give_back(id);
@@ -214,6 +217,7 @@ static void do_put(arg_t idx)
 	int id = new_elem();
 	int ret;
 	ARMED(ret = level == 0 ? array_list_put_idx(al, real(idx), (void *)(intptr_t)id)
+	            : VIA_LIST ? array_list_put_idx(LST, real(idx), node[id])
 	                       : json_object_array_put_idx(arr, real(idx), node[id]));
 	observe("put", idx, Z, id, ret, 0, 0, 0);
 	if (ret)
@@ -224,6 +228,7 @@ static void do_insert(arg_t idx)
 	int id = new_elem();
 	int ret;
 	ARMED(ret = level == 0 ? array_list_insert_idx(al, real(idx), (void *)(intptr_t)id)
+	            : VIA_LIST ? array_list_insert_idx(LST, real(idx), node[id])
 	                       : json_object_array_insert_idx(arr, real(idx), node[id]));
 	observe("insert", idx, Z, id, ret, 0, 0, 0);
 	if (ret)
@@ -233,6 +238,7 @@ static void do_del(arg_t idx, arg_t count)
 {
 	int ret;
 	ARMED(ret = level == 0 ? array_list_del_idx(al, real(idx), real(count))
+	            : VIA_LIST ? array_list_del_idx(LST, real(idx), real(count))
 	                       : json_object_array_del_idx(arr, real(idx), real(count)));
 	observe("del", idx, count, 0, ret, 0, 0, 0);
 }
@@ -240,12 +246,14 @@ static void do_shrink(int k)
 {
 	arg_t c = {0, k};
 	int ret;
-	ARMED(ret = level == 0 ? array_list_shrink(al, (size_t)k) : json_object_array_shrink(arr, k));
+	ARMED(ret = level == 0 ? array_list_shrink(al, (size_t)k) : VIA_LIST ? array_list_shrink(LST, (size_t)k) : json_object_array_shrink(arr, k));
 	observe("shrink", Z, c, 0, ret, 0, 0, 0);
 }
 static void do_get(arg_t idx)
 {
-	int v = level == 0 ? (int)(intptr_t)array_list_get_idx(al, real(idx)) : id_of(json_object_array_get_idx(arr, real(idx)));
+	int v = level == 0 ? (int)(intptr_t)array_list_get_idx(al, real(idx))
+	        : VIA_LIST ? id_of((json_object *)array_list_get_idx(LST, real(idx)))
+	                   : id_of(json_object_array_get_idx(arr, real(idx)));
 	observe("get", idx, Z, v, 0, 0, 0, 0);
 }
 
